@@ -738,7 +738,7 @@ func TestEndToEndTask(t *testing.T) {
 	for _, e := range s.Log() {
 		trace = append(trace, fmt.Sprintf("%s %s %d", e.Kind, e.Table, e.NRows))
 	}
-	eq(t, trace, []string{"begin  0", "query " + tu + " 1", "exec " + tu + " 1", "exec transfers 1", "query " + tu + " 1", "commit  0",
+	eq(t, trace, []string{"begin  0", "query " + tu + " 1", "exec " + tu + " 1", "query " + tu + " 1", "exec transfers 1", "query " + tu + " 1", "commit  0",
 		"begin  0", "copy transfers 1", "query  1", "exec " + tu + " 1", "commit  0"})
 	noErr(t, task.Converge())
 	eq(t, task.Converge(), shovel.ErrNothingNew)
